@@ -186,12 +186,22 @@ class Flattener(object):
         f = call.func
         prog = self.prog
         if isinstance(f, ast.Attribute) and isinstance(f.value, ast.Name):
-            if f.value.id == 'self' and cls is not None:
+            if f.value.id in ('self', 'cls') and cls is not None:
                 callee = prog.resolve_method(cls, f.attr)
                 if callee is None or self._is_overridden(cls, f.attr, callee):
                     return None
                 deco = _decorators(callee.node)
-                if 'classmethod' in deco or 'property' in deco:
+                if 'property' in deco:
+                    return None
+                if 'classmethod' in deco:
+                    # the class parameter is used for class-level reads and calls only: through an instance these resolve the
+                    # same way (no instance attribute of the package shadows a class-level name)
+                    cp = callee.node.args.args[0].arg if callee.node.args.args else None
+                    uses = [n for n in ast.walk(callee.node) if isinstance(n, ast.Name) and n.id == cp]
+                    ok = cp is not None and all(isinstance(getattr(n, '_parent', None), ast.Attribute) and getattr(n, '_parent').value is n and
+                                                isinstance(getattr(n, '_parent').ctx, ast.Load) for n in uses)
+                    return (callee, f.value) if ok else None
+                if f.value.id == 'cls' and 'staticmethod' not in deco:
                     return None
                 return callee, (None if 'staticmethod' in deco else f.value)
             ci = prog.classes.get(f.value.id)
@@ -1027,7 +1037,40 @@ class Flattener(object):
         return out
 
     # ---- desugaring (exact rewritings into plain statements, so that rules see branches and loops) ----------------
+    def _sink_test_through_choice(self, stmts):
+        """if c: x = A else: x = B          if c: x = A; (if T[A]: P else: Q)
+           if T[x]: P else: Q         ==>   else: x = B; (if T[B]: P else: Q)
+        (the second statement is duplicated into both branches - the same executions - and reads the value just chosen)"""
+        out = []
+        i = 0
+        stmts = list(stmts)
+        while i < len(stmts):
+            s = stmts[i]
+            nxt = stmts[i + 1] if i + 1 < len(stmts) else None
+            if isinstance(s, ast.If) and len(s.body) == 1 and len(s.orelse) == 1 and isinstance(nxt, ast.If) and \
+                    all(isinstance(b, ast.Assign) and len(b.targets) == 1 and isinstance(b.targets[0], ast.Name) and _pure(b.value)
+                        for b in (s.body[0], s.orelse[0])) and s.body[0].targets[0].id == s.orelse[0].targets[0].id:
+                x = s.body[0].targets[0].id
+                mentions = any(isinstance(n, ast.Name) and n.id == x for n in ast.walk(nxt.test))
+                cond_names = {n.id for n in ast.walk(s.test) if isinstance(n, ast.Name)}
+                if mentions and x not in cond_names and _pure(nxt.test) is not None:
+                    def dup(val, fresh):
+                        n2 = nxt if not fresh else clone(nxt)
+                        n2.test = _Subst({x: val}, {}).visit(clone(n2.test))
+                        return n2
+                    new = ast.copy_location(ast.If(test=s.test, body=[s.body[0], dup(s.body[0].value, True)],
+                                                   orelse=[s.orelse[0], dup(s.orelse[0].value, True)]), s)
+                    ast.fix_missing_locations(new)
+                    out.append(new)
+                    self.desugared += 1
+                    i += 2
+                    continue
+            out.append(s)
+            i += 1
+        return out
+
     def desugar(self, stmts):
+        stmts = self._sink_test_through_choice(stmts)
         out = []
         for s in stmts:
             for field in ('body', 'orelse', 'finalbody'):
@@ -1167,6 +1210,47 @@ class Flattener(object):
                 out.append(s)
                 i += 1
         return out
+
+    def _desugar_partials(self, fn):
+        """p = functools.partial(F, a, k=v)  ...  p(x, j=w)      ==>      ...  F(a, x, k=v, j=w)
+        when p is bound once, a and v are names / constants that are not re-bound, and p is only ever called"""
+        changed = False
+        for d in [n for n in ast.walk(fn) if isinstance(n, ast.Assign) and len(n.targets) == 1 and isinstance(n.targets[0], ast.Name)]:
+            v = d.value
+            if not (isinstance(v, ast.Call) and ((isinstance(v.func, ast.Attribute) and v.func.attr == 'partial') or
+                                                 (isinstance(v.func, ast.Name) and v.func.id == 'partial')) and v.args):
+                continue
+            name = d.targets[0].id
+            if len([n for n in ast.walk(fn) if isinstance(n, ast.Name) and n.id == name and isinstance(n.ctx, ast.Store)]) != 1:
+                continue
+            if not all(_pure(a) for a in v.args) or not all(_pure(k.value) for k in v.keywords) or any(k.arg is None for k in v.keywords):
+                continue
+            stored = _stored_names(fn) if False else {n.id for n in ast.walk(fn) if isinstance(n, ast.Name) and isinstance(n.ctx, ast.Store)}
+            frozen = {n.id for a in list(v.args[1:]) + [k.value for k in v.keywords] for n in ast.walk(a) if isinstance(n, ast.Name)}
+            counts = {}
+            for n in ast.walk(fn):
+                if isinstance(n, ast.Name) and isinstance(n.ctx, ast.Store):
+                    counts[n.id] = counts.get(n.id, 0) + 1
+            if any(counts.get(nm, 0) > 1 for nm in frozen):
+                continue
+            uses = [n for n in ast.walk(fn) if isinstance(n, ast.Name) and n.id == name and isinstance(n.ctx, ast.Load)]
+            calls = [c for c in ast.walk(fn) if isinstance(c, ast.Call) and isinstance(c.func, ast.Name) and c.func.id == name]
+            if not calls or len(uses) != len(calls):
+                continue
+            for c in calls:
+                c.func = clone(v.args[0])
+                c.args = [clone(a) for a in v.args[1:]] + list(c.args)
+                have = {k.arg for k in c.keywords}
+                c.keywords = [ast.keyword(arg=k.arg, value=clone(k.value)) for k in v.keywords if k.arg not in have] + list(c.keywords)
+                ast.fix_missing_locations(c)
+            # the binding itself is dead now
+            class Drop(ast.NodeTransformer):
+                def visit_Assign(self, n):
+                    return None if n is d else n
+            Drop().visit(fn)
+            self.desugared += 1
+            changed = True
+        return changed
 
     def _desugar_iterator_pulls(self, stmts, fn):
         """it = (e for t in SRC if c)   [or a private generator function]   consumed only by k successive `next(it, d_i)`:
@@ -1328,6 +1412,45 @@ class Flattener(object):
             ga = GA()
             s = ga.visit(s)
             self.desugared += ga.n
+        # self.NAME / cls.NAME bound once, at class level, to a string or number that nothing re-binds: the constant itself
+        outer = self
+
+        class CC(ast.NodeTransformer):
+            def __init__(self):
+                self.n = 0
+
+            def visit_FunctionDef(self, node):
+                return node
+
+            def visit_BinOp(self, node):
+                self.generic_visit(node)
+                if isinstance(node.op, ast.Add) and isinstance(node.left, ast.Constant) and isinstance(node.right, ast.Constant) and \
+                        isinstance(node.left.value, str) and isinstance(node.right.value, str) and self.n:
+                    return ast.copy_location(ast.Constant(value=node.left.value + node.right.value), node)
+                return node
+
+            def visit_Attribute(self, node):
+                self.generic_visit(node)
+                if isinstance(node.ctx, ast.Load) and isinstance(node.value, ast.Name) and node.value.id in ('self', 'cls') and \
+                        node.attr[:1] == '_' or (isinstance(node.ctx, ast.Load) and isinstance(node.value, ast.Name) and
+                                                 node.value.id in ('self', 'cls') and node.attr.isupper()):
+                    lit = outer._class_literal(node.attr)
+                    if isinstance(lit, ast.Constant) and isinstance(lit.value, (str, int, float)) and not isinstance(lit.value, bool):
+                        self.n += 1
+                        return ast.copy_location(ast.Constant(value=lit.value), node)
+                return node
+        if isinstance(s, (ast.If, ast.While)):
+            cc = CC()
+            s.test = cc.visit(s.test)
+            self.desugared += cc.n
+        elif isinstance(s, ast.For):
+            cc = CC()
+            s.iter = cc.visit(s.iter)
+            self.desugared += cc.n
+        elif not isinstance(s, (ast.Try, ast.With, ast.FunctionDef, ast.ClassDef)):
+            cc = CC()
+            s = cc.visit(s)
+            self.desugared += cc.n
         # for x in (e for t in S if c): B    ==>    for t in S: if c: x = e; B       (t renamed when the name is taken)
         if isinstance(s, ast.For) and isinstance(s.iter, (ast.GeneratorExp, ast.ListComp)) and len(s.iter.generators) == 1 and not s.orelse \
                 and (isinstance(s.iter, ast.GeneratorExp) or True):
@@ -1501,6 +1624,7 @@ class Flattener(object):
         self._node = node
         self.desugared = 0
         self._dropped = set()
+        self._desugar_partials(node)
         node.body = self._desugar_iterator_pulls(node.body, node)
         node.body = self._desugar_dispatch(node.body, node)
         node.body = self.desugar(node.body)
@@ -1533,6 +1657,7 @@ class Flattener(object):
             shape = ast.dump(node)
             if self.inlined:
                 node.body = _fold_constant_tests(node.body) or [ast.Pass()]
+            self._desugar_partials(node)
             node.body = self._desugar_iterator_pulls(node.body, node)
             node.body = self._desugar_dispatch(node.body, node)
             node.body = self.desugar(node.body)
